@@ -189,7 +189,9 @@ class App:
             # the session already holds this row (side effect of an earlier step):
             # modify that instance instead, add() of a twin would be refused
             o = self.s.identity_map.get(self.inspect(o).key)
+            twin = True
         else:
+            twin = False
             self.ctx.count("detached_modified_added")
         if kind == "p":
             o.name = value
@@ -197,7 +199,8 @@ class App:
         else:
             o.v = value
             self.c[tag][0] = value
-        self.s.add(o)
+        if not twin:
+            self.s.add(o)
         self.refs[(kind, tag)] = o
         self.dirty.add((kind, tag))
 
@@ -528,7 +531,7 @@ def run(ctx):
 
     warnings.simplefilter("ignore")
     rng = ctx.rng
-    nprog = ctx.pick({"quick": 30, "thorough": 1000})
+    nprog = ctx.pick({"quick": 60, "thorough": 600})
     variants = {
         "plain": "save-update, merge",
         "orphan": "all, delete-orphan",
